@@ -252,6 +252,8 @@ def weave(op_file, cfg):
     handlers = {h["label"]: h for h in ex["handlers"]}
     heap = (re.search(r"^//@heap\s+(.+)$", text, re.M) or [None, "Heap"])[1].strip()
     tp = (re.search(r"^//@tp\s+(.+)$", text, re.M) or [None, ""])[1].strip()
+    celltp = re.search(r"^//@celltp[ \t]*(.*)$", text, re.M)
+    celltp = celltp.group(1).strip() if celltp else tp
     parts = [(a, f"{b} {c}".strip()) for a, b, c in re.findall(r"^//@invpart\s+(\w+)\s+(@C\d+)\s*(.*)$", text, re.M)]
     tokens = dict((a, b.strip()) for a, b in re.findall(r"^//@token\s+(\w+)\s*=>\s*(.+)$", text, re.M))
     ignores = dict((a, b) for a, b in re.findall(r"^//@ignore\s+(\w+)\s*=\s*(.*)$", text, re.M))
@@ -261,7 +263,7 @@ def weave(op_file, cfg):
     text = expand_inv_macro(text, parts)
     # cells
     def cell(mm):
-        return gen_cell(mm.group(1), mm.group(2).strip(), mm.group(3), heap, tp)
+        return gen_cell(mm.group(1), mm.group(2).strip(), mm.group(3), heap, celltp)
     text = re.sub(r"^//@cell\s+(\w+)\s*:\s*(.+?)\s*=\s*(\w+)\s*$", cell, text, flags=re.M)
     # ignored closures must still read exactly as recorded
     meta = {"op": op, "arity": arity, "cfg": cfg, "handlers": {}, "sites": 0, "trace_events": 0}
